@@ -298,6 +298,7 @@ impl<'input> Iterator for Lexer<'input> {
                                 continue;
                             } else if c2 == Some('*') { // /*-style comment
                                 debug!("/* comment");
+                                self.internal_next(); // the '*' of the opening "/*" cannot also close the comment
                                 let mut found_end = false;
                                 loop {
                                     self.get_while(i, is_not_star);
